@@ -500,7 +500,19 @@ func VH_C11_session() {
 	removed := false
 	for s := 0; s < steps; s++ {
 		tag := fmt.Sprintf("-step%d", s)
-		switch rt.Choose(6) {
+		switch rt.Choose(7) {
+		case 6:
+			// bob renames himself through the cache API
+			ic, err := c.Identities().Resolve(w.bob.Id())
+			rt.Assert(err == nil, "identity-resolves"+tag)
+			if err == nil {
+				name := fmt.Sprintf("bob%d", s)
+				rt.Assert(ic.Mutate(w.r, func(m *identity.Mutator) { m.Name = name }) == nil, "identity-mutates"+tag)
+				rt.Assert(ic.Commit() == nil, "identity-commits"+tag)
+				ex, eerr := c.Identities().ResolveExcerpt(w.bob.Id())
+				rt.Assert(eerr == nil && ex.Name == name, "identity-edit-visible"+tag)
+			}
+			rt.Cover("edit-identity")
 		case 0:
 			b, err := c.Bugs().Resolve(id1)
 			rt.Assert(err == nil, "bug-resolves"+tag)
